@@ -1162,3 +1162,81 @@ func VerifBuildPtrProgram(ts, variants []int, k, split int) *VerifPtrProgram {
 	}
 	return out
 }
+
+// ---------------------------------------------------------------------------------------------------------------
+// Sequential source-to-sink flows (C01 / C03 / C05): x := source(); q := transports(x); sink(q)  - the transports run in
+// main or (from position split on) inside a callee; with sinkForm 1 the sink receives a pointer to a struct whose
+// field holds q (the tainted data is in memory reachable from the argument).
+
+// VerifSequentialTransport reports whether transport t is an explicit data operation of the sequential fragment
+// (no goroutine, channel or select involved).
+func VerifSequentialTransport(t int) bool {
+	switch t {
+	case ptChan, ptSelectRecv, ptGoStore:
+		return false
+	}
+	return true
+}
+
+func VerifBuildDirectFlow(ts, variants []int, split int, sinkForm int) *VerifFlowWorld {
+	w := verifNewPtrWorld(1)
+	out := &VerifFlowWorld{Prog: w.prog, Funcs: w.funcs}
+	src := w.newFn("source", w.sig(nil, []types.Type{w.P}))
+	{
+		w.beginFn(src)
+		a := w.alloc(w.elem, "secret")
+		w.emit(&ssa.Return{Results: []ssa.Value{a}})
+		w.endFn()
+	}
+	var sink *ssa.Function
+	if sinkForm == 0 || sinkForm == 2 {
+		sink = w.fnWith("sink", []types.Type{w.P}, func([]ssa.Value) {})
+	} else {
+		sink = w.fnWith("sink", []types.Type{w.PS}, func([]ssa.Value) {})
+	}
+	out.SourceFn, out.SinkFn = src, sink
+	mainFn := w.newFn("main", w.sig(nil, nil))
+	out.Main = mainFn
+	var midFn *ssa.Function
+	if split < len(ts) {
+		midFn = w.newFn("mid", w.sig([]types.Type{w.P, w.P}, []types.Type{w.P}))
+	}
+	w.beginFn(mainFn)
+	w.A[1] = w.alloc(w.elem, "other")
+	sc := &ssa.Call{}
+	sc.Call.Value = src
+	v := w.val(sc, w.P)
+	out.Source = sc
+	for i := 0; i < len(ts) && i < split; i++ {
+		v = w.transport(ts[i], v, w.A[1], variants[i])
+	}
+	if midFn != nil {
+		mBlocks, mCur, mCurB := w.blocks, w.cur, w.curB
+		w.beginFn(midFn)
+		p := w.param(midFn, "p", w.P, nil)
+		q := w.param(midFn, "q", w.P, nil)
+		var mv ssa.Value = p
+		for i := split; i < len(ts); i++ {
+			mv = w.transport(ts[i], mv, q, variants[i])
+		}
+		w.emit(&ssa.Return{Results: []ssa.Value{mv}})
+		w.endFn()
+		w.fn, w.blocks, w.cur, w.curB = mainFn, mBlocks, mCur, mCurB
+		v = w.call(midFn, []ssa.Value{v, w.A[1]}, w.P, midFn)
+	}
+	if sinkForm == 2 {
+		// control: the sink receives the other allocation, which never holds the source's data
+		out.Sink = w.plainCall(sink, w.A[1])
+	} else if sinkForm == 0 {
+		out.Sink = w.plainCall(sink, v)
+	} else {
+		h := w.alloc(w.S, "holder")
+		w.store(w.val(&ssa.FieldAddr{X: h, Field: 1}, w.PP), v)
+		out.Sink = w.plainCall(sink, h)
+	}
+	w.emit(&ssa.Return{})
+	w.endFn()
+	verifSetUnexported(w.pkg, "objects", w.objs)
+	verifSetUnexported(w.prog, "runtimeTypes", w.rtyps)
+	return out
+}
